@@ -635,3 +635,138 @@ class _ExtractTail(ast.NodeTransformer):
 
 
 _STMT_KINDS["extract-tail"] = _ExtractTail
+
+
+# ------------------------------------------------------------------------------------------------------------------
+# signature rewrites: the parameters of internal methods reordered / renamed together with every call site
+
+def _signature_candidates(mods):
+    """instance methods with a repository-wide unique name (and constructors of classes without repository bases or subclasses) whose
+    every use is a plain call: -> {name: (class name, FunctionDef)} and the call sites {name: [Call]}"""
+    from .canon import class_table, unique_methods
+    classes = class_table(list(mods.values()))
+    by_name = dict(unique_methods(classes))
+    modfuncs = {n.name for m in mods.values() for n in m.body if isinstance(n, ast.FunctionDef)}
+    subclassed = {b.id for c in classes.values() for b in c.bases if isinstance(b, ast.Name)}
+    for cname, c in classes.items():
+        if c.bases or cname in subclassed:
+            continue
+        init = [f for f in c.body if isinstance(f, ast.FunctionDef) and f.name == "__init__"]
+        if len(init) == 1:
+            by_name["__init__:" + cname] = (cname, init[0])
+    cands = {}
+    for name, (cname, fn) in by_name.items():
+        a = fn.args
+        if fn.decorator_list or a.vararg or a.kwarg or a.kwonlyargs or a.posonlyargs or not a.args or a.args[0].arg != "self":
+            continue
+        if fn.name in modfuncs:
+            continue
+        cands[name] = (cname, fn)
+    sites = {k: [] for k in cands}
+    bad = set()
+    for mod in mods.values():
+        call_funcs = set()
+        for n in ast.walk(mod):
+            if isinstance(n, ast.Call):
+                call_funcs.add(id(n.func))
+                key = None
+                if isinstance(n.func, ast.Attribute) and n.func.attr in cands:
+                    key = n.func.attr
+                elif isinstance(n.func, ast.Name) and "__init__:" + n.func.id in cands:
+                    key = "__init__:" + n.func.id
+                if key is not None:
+                    if any(isinstance(x, ast.Starred) for x in n.args) or any(k.arg is None for k in n.keywords):
+                        bad.add(key)
+                    sites[key].append(n)
+        for n in ast.walk(mod):
+            if isinstance(n, ast.Attribute) and id(n) not in call_funcs:
+                if n.attr in cands:
+                    bad.add(n.attr)          # the method handed over as a value: whoever calls it fixes the argument order
+                if n.attr == "__init__" and isinstance(n.value, ast.Name):
+                    bad.add("__init__:" + n.value.id)
+            if isinstance(n, ast.Name) and id(n) not in call_funcs and "__init__:" + n.id in cands and isinstance(n.ctx, ast.Load):
+                # the class used as a value (isinstance, Class.CONST, type annotations) is fine; only calls matter
+                pass
+            if isinstance(n, ast.Constant) and isinstance(n.value, str) and n.value in cands:
+                bad.add(n.value)             # getattr(obj, "name")
+    for k in bad:
+        cands.pop(k, None)
+        sites.pop(k, None)
+    return cands, sites
+
+
+def _binds_name(fn, name):
+    """does a nested scope of `fn` (def, lambda, comprehension) bind `name` itself?"""
+    for n in ast.walk(fn):
+        if n is fn:
+            continue
+        if isinstance(n, (ast.FunctionDef, ast.Lambda)):
+            a = n.args
+            if name in [x.arg for x in a.args + a.kwonlyargs + a.posonlyargs] or (a.vararg and a.vararg.arg == name) or (a.kwarg and a.kwarg.arg == name):
+                return True
+        if isinstance(n, ast.comprehension) and any(isinstance(t, ast.Name) and t.id == name for t in ast.walk(n.target)):
+            return True
+        if isinstance(n, (ast.Global, ast.Nonlocal)) and name in n.names:
+            return True
+    return False
+
+
+def rewrite_signatures(root, kind):
+    """reorder-params: the non-default parameters (after self) of every eligible method rotated by one, every call site handing its
+    arguments over by keyword in the order they were written (so the arguments are still evaluated in the same order);
+    rename-params: every parameter of every eligible method renamed in the signature, the body and the keyword call sites.
+    -> number of rewritten methods"""
+    files = source_files(root)
+    mods = {}
+    for p in files:
+        try:
+            mods[p] = ast.parse(open(p, encoding="utf-8").read())
+        except SyntaxError:
+            continue
+    cands, sites = _signature_candidates(mods)
+    n_done = 0
+    for key, (cname, fn) in cands.items():
+        a = fn.args
+        params = [x.arg for x in a.args][1:]
+        n_plain = len(params) - len(a.defaults)
+        if any(len(c.args) > len(params) for c in sites[key]):
+            continue
+        if kind == "reorder-params":
+            if n_plain < 2:
+                continue
+            plain = a.args[1:1 + n_plain]
+            a.args = [a.args[0]] + plain[1:] + plain[:1] + a.args[1 + n_plain:]
+            for c in sites[key]:
+                names = params[:len(c.args)]
+                if {k.arg for k in c.keywords} & set(names):
+                    continue
+                c.keywords = [ast.keyword(arg=p_, value=v_) for p_, v_ in zip(names, c.args)] + c.keywords
+                c.args = []
+            n_done += 1
+        elif kind == "rename-params":
+            ren = {}
+            for p_ in params:
+                if _binds_name(fn, p_) or p_ + "_pp" in {n.id for n in ast.walk(fn) if isinstance(n, ast.Name)}:
+                    continue
+                ren[p_] = p_ + "_pp"
+            if not ren:
+                continue
+            for x in a.args:
+                x.arg = ren.get(x.arg, x.arg)
+            for n in ast.walk(fn):
+                if isinstance(n, ast.Name) and n.id in ren:
+                    n.id = ren[n.id]
+            for c in sites[key]:
+                for k in c.keywords:
+                    if k.arg in ren:
+                        k.arg = ren[k.arg]
+            n_done += 1
+        else:
+            raise ValueError(kind)
+    for p, mod in mods.items():
+        ast.fix_missing_locations(mod)
+        out = ast.unparse(mod) + "\n"
+        compile(out, p, "exec")
+        with open(p, "w", encoding="utf-8") as f:
+            f.write(out)
+    return n_done
